@@ -90,6 +90,8 @@ type histOp struct {
 	Old      *sumworld.HeadLabel `json:"old"`
 	New      *sumworld.HeadLabel `json:"new"`
 	Conflict bool                `json:"conflict"`
+	Point    string              `json:"point"`
+	N        int                 `json:"n"`
 	Ok       bool                `json:"ok"`
 	Err      string              `json:"err"`
 }
@@ -169,6 +171,8 @@ type scriptOps struct {
 	ev      func(k string, in any)               // optional event sink (E3 recording)
 	chaos   func(op string, f absFile) *scripted // optional random adversary (E3): nil result = honest
 	curTl   string                               // timeline the honest server answers from
+	clientCalls []string                         // "<client> <op> <file>" (concurrent replays)
+	servedHeads []int                            // sizes of the good heads handed to clients in lookup responses
 }
 
 func newScriptOps(w *sumworld.World, cfg0 sumworld.HeadLabel, served map[string]int) *scriptOps {
@@ -284,6 +288,10 @@ func (o *scriptOps) ReadRemote(path string) ([]byte, error) {
 	} else {
 		o.unscriptedRemote++
 		if f.Kind == "lookup" {
+			// an honest server signs a tree that contains the record it returns
+			if f.K < o.w.Size["A"] && o.served["A"] < f.K+1 {
+				o.served["A"] = f.K + 1
+			}
 			s = scripted{resp: &respLabel{Kind: "resp", Rec: sumworld.RecLabel{Kind: "true", Tl: "A", ID: f.K}, Head: sumworld.HeadLabel{Kind: "good", Tl: "A", N: o.served["A"]}}}
 		} else {
 			s = scripted{lab: &tileLab{Kind: "true", Tl: "A"}}
@@ -293,6 +301,11 @@ func (o *scriptOps) ReadRemote(path string) ([]byte, error) {
 		o.faultsServed++
 		if o.ev != nil {
 			o.ev("Fault", map[string]any{"op": "ReadRemote", "file": key})
+		}
+	} else if s.resp != nil && s.resp.Kind == "resp" && s.resp.Head.Kind == "good" {
+		tl := s.respTl(o.w)
+		if o.served[tl] < s.resp.Head.N {
+			o.served[tl] = s.resp.Head.N
 		}
 	}
 	var data []byte
@@ -310,6 +323,9 @@ func (o *scriptOps) ReadRemote(path string) ([]byte, error) {
 	if f.Kind == "lookup" && err == nil {
 		if _, hd, ok := o.w.ClassifyLookup(data); ok {
 			o.lastLookupHead[f.K] = hd
+			if hd.Kind == "good" {
+				o.servedHeads = append(o.servedHeads, hd.N)
+			}
 			if o.ev != nil {
 				o.ev("Served", map[string]any{"key": f.K, "head": hd, "src": "net"})
 			}
@@ -611,12 +627,18 @@ func checkLookupResult(o *scriptOps, w *sumworld.World, k int, lines []string, e
 
 func (w *clientWorld) Check(c *core.Case) ([]core.Violation, bool) {
 	switch c.K {
-	case "behaviour":
+	case "behaviour", "schedule":
 		var in behaviourIn
 		if err := json.Unmarshal(c.In, &in); err != nil {
 			panic(err)
 		}
-		vs, nt := replayBehaviour(c, &in)
+		var vs []core.Violation
+		var nt bool
+		if c.K == "schedule" {
+			vs, nt = replaySchedule(c, &in)
+		} else {
+			vs, nt = replayBehaviour(c, &in)
+		}
 		for i := range vs {
 			vs[i].Case = c
 		}
